@@ -480,12 +480,95 @@ pub fn token_soup(ch: &mut Choices) -> String {
 }
 
 /// Full generator used by C09/C10: (corpus) -> TextCase.
+/// Inserts a line comment whose last character is multi-byte (or a bare CR) after a structural
+/// token or at a line boundary, and sometimes cuts the text right after it (comment at end of file,
+/// inside an open brace / list).
+pub fn mutate_comment(ch: &mut Choices, s: &mut String, log: &mut Vec<String>) {
+    let toks = rough_lex(s);
+    let anchors: Vec<usize> = toks
+        .iter()
+        .filter(|t| matches!(&s[t.start..t.end], "{" | "(" | "[" | ";" | "," | "}" | "=>" | "=" | "->") || (t.kind == TokKind::Ws && s[t.start..t.end].contains('\n')))
+        .map(|t| t.end)
+        .collect();
+    let pos = if anchors.is_empty() { s.len() } else { anchors[ch.below(anchors.len())] };
+    let c = *ch.pick(&["\n// \u{e9}", "\n// \u{4e2d}\n", " // x\u{3bb}", "\n/// \u{e9}", "\n//! \u{1F600}", "\n//\u{e9}", " // a\r", "\n// \u{e9}\r\n", "\n    // \u{e9}\u{e9}"]);
+    s.insert_str(pos, c);
+    if ch.chance(1, 3) {
+        s.truncate(pos + c.len());
+        log.push(format!("comment+cut@{pos}:{c:?}"));
+    } else {
+        log.push(format!("comment@{pos}:{c:?}"));
+    }
+}
+
+/// Attribute with a generated argument list (arity 0..3, nested call-like arguments, named
+/// arguments, strings) on a small item: the argument shapes attribute plugins have to reject.
+pub fn attr_soup(ch: &mut Choices) -> String {
+    const NAMES: &[&str] = &[
+        "cfg", "derive", "inline", "feature", "allow", "must_use", "implicit_precedence", "generate_trait", "starknet::contract",
+        "starknet::interface", "starknet::component", "storage", "event", "external", "abi", "constructor", "l1_handler", "test",
+        "should_panic", "available_gas", "ignore", "doc", "flat", "key", "substorage", "phantom", "default", "executable", "cairofmt::skip",
+        "embeddable", "embeddable_as", "starknet::embeddable", "per_item", "nested", "unstable", "deprecated", "internal", "rename", "serde",
+        "sub_pointers", "starknet::storage_node", "starknet::store", "external_attr_validation", "expand", "hidden",
+    ];
+    const WORDS: &[&str] = &["not", "and", "or", "feature", "target", "test", "v0", "embed_v0", "per_item", "expected", "a", "b", "Drop", "Copy", "Serde", "PartialEq", "core::RangeCheck", "always", "never", "\"x\"", "\"\"", "1", "0", "-1", "'s'", "true", "_", "Self", "T", "u8"];
+    fn arg(ch: &mut Choices, depth: usize) -> String {
+        match ch.weighted(&[4, if depth < 3 { 4 } else { 0 }, 2, 1, 1]) {
+            0 => (*ch.pick(WORDS)).to_string(),
+            1 => {
+                let n = ch.below(4);
+                let inner: Vec<String> = (0..n).map(|_| arg(ch, depth + 1)).collect();
+                format!("{}({})", ch.pick(WORDS), inner.join(", "))
+            }
+            2 => format!("{}: {}", ch.pick(WORDS), arg(ch, depth + 1)),
+            3 => format!(":{}", ch.pick(WORDS)),
+            _ => String::new(),
+        }
+    }
+    let mut out = String::new();
+    let n_items = 1 + ch.below(3);
+    for k in 0..n_items {
+        let n_attrs = 1 + ch.below(3);
+        for _ in 0..n_attrs {
+            let name = *ch.pick(NAMES);
+            let shape = ch.below(6);
+            let n = ch.below(4);
+            let args: Vec<String> = (0..n).map(|_| arg(ch, 0)).collect();
+            let bang = if ch.chance(1, 12) { "!" } else { "" };
+            match shape {
+                0 => out.push_str(&format!("#{bang}[{name}]\n")),
+                1 => out.push_str(&format!("#{bang}[{name}()]\n")),
+                _ => out.push_str(&format!("#{bang}[{name}({})]\n", args.join(", "))),
+            }
+        }
+        out.push_str(match ch.below(9) {
+            0 => "fn f() {}\n",
+            1 => "struct S { #[key] a: felt252, b: u8 }\n",
+            2 => "enum E { A, #[default] B: u8 }\n",
+            3 => "mod m { #[cfg(not())] fn g() {} }\n",
+            4 => "impl I of T { #[inline()] fn h(self: @u8) {} }\n",
+            5 => "trait T { #[must_use()] fn h(self: @u8); }\n",
+            6 => "use core::array;\n",
+            7 => "const C: u8 = 1;\n",
+            _ => "mod c { #[storage] struct Storage {} }\n",
+        });
+        if k + 1 < n_items && ch.chance(1, 4) {
+            out.push_str("#[cfg(and(not(), or()))]\n");
+        }
+    }
+    out
+}
+
 pub fn gen_text(ch: &mut Choices, corpus: &[(String, String)], max_bytes: usize) -> TextCase {
-    let mode = ch.weighted(&[6, 1, 1]);
+    let mode = ch.weighted(&[12, 2, 2, 1]);
     match mode {
         1 => {
             let text = token_soup(ch);
             TextCase { origin: String::new(), mutations: vec!["soup".into()], text }
+        }
+        3 => {
+            let text = attr_soup(ch);
+            TextCase { origin: String::new(), mutations: vec!["attributes".into()], text }
         }
         2 => {
             let text = depth_stress(ch, 200);
@@ -498,9 +581,10 @@ pub fn gen_text(ch: &mut Choices, corpus: &[(String, String)], max_bytes: usize)
             let mut log = vec![];
             let n = 1 + ch.below(4);
             for _ in 0..n {
-                match ch.weighted(&[3, 5, 2]) {
+                match ch.weighted(&[6, 10, 4, 1]) {
                     0 => mutate_bytes(ch, &mut text, &mut log),
                     1 => mutate_tokens(ch, &mut text, &mut log),
+                    3 => mutate_comment(ch, &mut text, &mut log),
                     _ => {
                         let di = ch.below(corpus.len());
                         mutate_subtree(ch, &mut text, &corpus[di].1, &mut log)
